@@ -28,6 +28,15 @@ Lower(k) == CASE k = "EVENT_ID" -> "event_id" [] k = "PARTITION_KEY" -> "partiti
               [] k = "FROM" -> "from" [] k = "WINDOW" -> "window" [] k = "LATEST" -> "latest"
               [] k = "MAP" -> "map" [] k = "DEFAULT" -> "default" [] OTHER -> k
 
+\* tokens that resemble a keyword without being it: cut short, one letter too long, the initial alone.  Where the grammar
+\* expects a clause they must be rejected; where it allows a stream id they are one (never a clause).
+Near(k) == CASE k = "EVENT_ID" -> {"EVENT_I", "EVENT_IDS", "E"} [] k = "PARTITION_KEY" -> {"PARTITION_KE", "PARTITION_KEYS", "part"}
+             [] k = "EXPECTED_VERSION" -> {"EXPECTED_VERSIO", "EXPECTED_VERSIONS", "EXPECTED"} [] k = "TIMESTAMP" -> {"TIMESTAM", "TIMESTAMPS", "t"}
+             [] k = "PAYLOAD" -> {"PAYLOA", "PAYLOADS", "pay"} [] k = "METADATA" -> {"METADAT", "METADATAS", "m"}
+             [] k = "COUNT" -> {"COUN", "COUNTER", "c"} [] k = "FROM" -> {"FRO", "FROMS", "f"} [] k = "WINDOW" -> {"WINDO", "WINDOWS", "w"}
+             [] k = "LATEST" -> {"LATES", "LATESTS", "l"} [] k = "MAP" -> {"MA", "MAPS"} [] k = "DEFAULT" -> {"DEFAUL", "DEFAULTS", "d"}
+             [] OTHER -> {}
+
 Row(cmd, toks, den) == [cmd |-> cmd, toks |-> toks, den |-> den]
 Reject(cmd, toks) == [cmd |-> cmd, toks |-> toks, den |-> [reject |-> TRUE]]
 
@@ -56,7 +65,9 @@ EAppendRows ==
         trailing == {Reject("EAPPEND", <<"s", "E", "PAYLOAD", "p", "extra">>), Reject("EAPPEND", <<"s">>), Reject("EAPPEND", << >>),
                      Reject("EAPPEND", <<"s", "E", "EVENT_ID", BadU>>), Reject("EAPPEND", <<"s", "E", "TIMESTAMP", "-1">>),
                      Reject("EAPPEND", <<"s", "E", "EXPECTED_VERSION", "latest">>), Reject("EAPPEND", <<"s", "E", "BOGUS", "1">>)}
-    IN goodSmall \cup dup \cup noval \cup trailing
+        nearkw == {Reject("EAPPEND", <<"s", "E", nk, AVal(k, "0")>>) : k \in AClause, nk \in UNION {Near(x) : x \in AClause}}
+        nearval == {Reject("EAPPEND", <<"s", "E", "EXPECTED_VERSION", v>>) : v \in {"AN", "ANYS", "EXIST", "EMPT", "E", "a", ""}}
+    IN goodSmall \cup dup \cup noval \cup trailing \cup nearkw \cup nearval
 
 ----------------------------------------------------------------------------
 \* ESUB <stream> [PARTITION_KEY pk] ... [FROM LATEST | FROM n | FROM MAP s=v ...] [WINDOW n]
@@ -85,7 +96,13 @@ ESubRows ==
                 Reject("ESUB", <<"user-1", "WINDOW", "5", "FROM", "3">>),          \* clauses in the documented order only
                 Reject("ESUB", <<"user-1", "PARTITION_KEY", BadU>>),
                 Reject("ESUB", <<"user-1", "FROM", "5", "WINDOW", "10", "extra", "WINDOW", "3">>)}
-    IN good2 \cup bad
+        \* in the stream list a near-keyword is a stream id (with the documented meaning of what follows)
+        nearstream == {Row("ESUB", <<"orders", nk>>, [streams |-> <<[s |-> "orders", pk |-> "-"], [s |-> nk, pk |-> "-"]>>, from |-> [k |-> "none"], window |-> "-"])
+                         : nk \in UNION {Near(x) : x \in {"PARTITION_KEY", "FROM", "WINDOW"}}}
+        nearclause == {Reject("ESUB", <<"user-1", "FROM", "5", nk, "10">>) : nk \in Near("WINDOW")}
+                      \cup {Reject("ESUB", <<"user-1", "FROM", nk>>) : nk \in Near("LATEST")}
+                      \cup {Reject("ESUB", <<"user-1", "FROM", nk, "user-1=1">>) : nk \in Near("MAP")}
+    IN good2 \cup bad \cup nearstream \cup nearclause
 
 ----------------------------------------------------------------------------
 \* EPSUB * | <p> | <p1>,<p2> | <a>-<b> (the client's range form) | <partition key> [FROM LATEST | FROM n | FROM MAP p=s ... [DEFAULT n]] [WINDOW n]
@@ -105,7 +122,12 @@ EPSubRows ==
               : f \in {x \in PFrom : sel \notin {"5", U1} \/ x.k \in {"none", "all"}}, lc \in BOOLEAN, w \in Windows} : sel \in PSel}
     \cup {Reject("EPSUB", << >>), Reject("EPSUB", <<"*", "WINDOW", "0">>), Reject("EPSUB", <<"70000">>),
           Reject("EPSUB", <<"*", "FROM", "MAP", "1=x">>), Reject("EPSUB", <<"*", "FROM", "5", "junk">>),
-          Reject("EPSUB", <<"4-2">>), Reject("EPSUB", <<"2-">>), Reject("EPSUB", <<"2-70000">>)}
+          Reject("EPSUB", <<"4-2">>), Reject("EPSUB", <<"2-">>), Reject("EPSUB", <<"2-70000">>), Reject("EPSUB", <<"">>)}
+    \cup {Reject("EPSUB", <<"*", nk, "5">>) : nk \in Near("FROM")}
+    \cup {Reject("EPSUB", <<"*", nk, "10">>) : nk \in Near("WINDOW")}
+    \cup {Reject("EPSUB", <<"*", "FROM", nk>>) : nk \in Near("LATEST")}
+    \cup {Reject("EPSUB", <<"*", "FROM", nk, "1=1">>) : nk \in Near("MAP")}
+    \cup {Reject("EPSUB", <<"*", "FROM", "MAP", "1=1", nk, "0">>) : nk \in Near("DEFAULT")}
 
 ----------------------------------------------------------------------------
 \* ESCAN <stream> <start> <end> [PARTITION_KEY pk] [COUNT n]      EPSCAN <partition> <start> <end> [COUNT n]
@@ -119,12 +141,15 @@ EScanRows ==
         : r \in Ranges, lc \in BOOLEAN, p \in UNION {Perms(S) : S \in SUBSET {"PARTITION_KEY", "COUNT"}}}
     \cup {Reject("ESCAN", <<"s", "0">>), Reject("ESCAN", <<"s", "a", "b">>), Reject("ESCAN", <<"s", "0", "1", "COUNT">>),
           Reject("ESCAN", <<"s", "0", "1", "COUNT", "5", "COUNT", "6">>), Reject("ESCAN", <<"s", "0", "1", "x">>)}
+    \cup {Reject("ESCAN", <<"s", "0", "1", nk, "5">>) : nk \in Near("COUNT")}
+    \cup {Reject("ESCAN", <<"s", "0", "1", nk, U1>>) : nk \in Near("PARTITION_KEY")}
 EPScanRows ==
     {Row("EPSCAN", <<sel, r[1], r[2]>> \o (IF c = "-" THEN << >> ELSE <<IF lc THEN "count" ELSE "COUNT", c>>),
          [partition |-> sel, start |-> r[1], end |-> r[2], count |-> c])
         : sel \in {"42", "0", "65535", U1}, r \in Ranges, lc \in BOOLEAN, c \in {"-", "50", "0"}}
     \cup {Reject("EPSCAN", <<"42", "0">>), Reject("EPSCAN", <<"65536", "0", "1">>), Reject("EPSCAN", <<"42", "0", "1", "COUNT", "x">>),
           Reject("EPSCAN", <<BadU, "0", "1">>)}
+    \cup {Reject("EPSCAN", <<"42", "0", "1", nk, "5">>) : nk \in Near("COUNT")}
 
 \* EGET <event_id>   ESVER <stream> [PARTITION_KEY pk]   EPSEQ <partition>   EACK <subscription_id> <cursor>
 SmallRows ==
@@ -133,6 +158,7 @@ SmallRows ==
      Row("ESVER", <<"my-stream", "PARTITION_KEY", U1>>, [stream |-> "my-stream", partition_key |-> U1]),
      Row("ESVER", <<"my-stream", "partition_key", U1>>, [stream |-> "my-stream", partition_key |-> U1]),
      Reject("ESVER", << >>), Reject("ESVER", <<"s", "PARTITION_KEY">>), Reject("ESVER", <<"s", "x", "y">>),
+     Reject("ESVER", <<"s", "PARTITION_KE", U1>>), Reject("ESVER", <<"s", "PARTITION_KEYS", U1>>), Reject("ESVER", <<"s", "p", U1>>),
      Row("EPSEQ", <<"42">>, [partition |-> "42"]), Row("EPSEQ", <<U1>>, [partition |-> U1]),
      Reject("EPSEQ", << >>), Reject("EPSEQ", <<"65536">>), Reject("EPSEQ", <<"42", "43">>),
      Row("EACK", <<U1, "1000">>, [subscription_id |-> U1, cursor |-> "1000"]), Row("EACK", <<U1, UMax>>, [subscription_id |-> U1, cursor |-> UMax]),
@@ -157,6 +183,10 @@ EMAppendRows ==
         : p1 \in MShapes, p2 \in {<< >>, <<"PAYLOAD">>, <<"EXPECTED_VERSION", "METADATA">>}, two \in BOOLEAN, lc \in BOOLEAN}
     \cup {Reject("EMAPPEND", <<U2>>), Reject("EMAPPEND", <<BadU, "s", "E">>), Reject("EMAPPEND", <<U2, "s">>),
           Reject("EMAPPEND", <<U2, "s", "E", "PAYLOAD", "p", "PAYLOAD", "q">>), Reject("EMAPPEND", <<U2, "s", "E", "TIMESTAMP">>)}
+    \* after a complete event a near-keyword is the stream id of the next event, the token after it its name
+    \cup {Row("EMAPPEND", <<U2, "orders", "Ev", nk, "Ev">>,
+               [partition_key |-> U2, events |-> <<MDen("orders", {}, "any"), MDen(nk, {}, "any")>>])
+            : nk \in UNION {Near(x) : x \in MClause}}
 
 ----------------------------------------------------------------------------
 AllRows == EAppendRows \cup ESubRows \cup EPSubRows \cup EScanRows \cup EPScanRows \cup SmallRows \cup EMAppendRows
